@@ -1,0 +1,5 @@
+//go:build !verif
+
+package generatecmd
+
+func verifEmit(event string, fileName string) {}
